@@ -99,6 +99,31 @@ mod proofs {
           assert!(b.try_cast::<Twin>().is_err()); }
     }
 
+    // ---- zero-sized payload with a destructor: dropped exactly once as well --------------------------------------------
+    static ZDROPS: AtomicUsize = AtomicUsize::new(0);
+    #[derive(Debug, Clone, PartialEq)]
+    struct Permit;
+    impl Drop for Permit {
+        fn drop(&mut self) { ZDROPS.fetch_add(1, Ordering::SeqCst); }
+    }
+    #[kani::proof]
+    fn zero_sized_payload_dropped_once() {
+        let base = ZDROPS.load(Ordering::SeqCst);
+        let failed_cast: bool = kani::any();
+        let do_clone: bool = kani::any();
+        {
+            let mut b = Body::new_with_len(Permit, 0);
+            assert!(b.is::<Permit>() && !b.is::<()>());
+            let c = if do_clone { Some(b.clone()) } else { None };
+            if failed_cast { b = match b.try_cast::<()>() { Ok(_) => { assert!(false); return; } Err(b) => b }; }
+            assert!(ZDROPS.load(Ordering::SeqCst) == base);
+            drop(b);
+            assert!(ZDROPS.load(Ordering::SeqCst) == base + 1);
+            drop(c);
+        }
+        assert!(ZDROPS.load(Ordering::SeqCst) == base + 1 + (if do_clone { 1 } else { 0 }));
+    }
+
     // ---- clone: equal, independent value; declared length is kept ---------------------------------
     #[kani::proof]
     fn clone_is_equal_and_independent() {
